@@ -267,6 +267,46 @@ def gen_load(rng, size=None, malformed=False):
                 context=rng.random() < 0.3, wf=wf)
 
 
+# ====================================================================== enumerations
+def fork_pair_cases(rng, quick):
+    """Two nets with the same key and mask meeting on chip (2, 2): the first tree is rooted there, the second
+    arrives from (3, 3); the children of the shared node are any two subsets of five kinds of child.  The
+    out sets agree iff the subsets give the same routes (the route-less leaf never matters)."""
+    kinds = [lambda: [0, ["N", [3, 2], [[9, ["L", 1]]]]],      # a subtree to the east
+             lambda: [6, ["L", 2]], lambda: [7, ["L", 3]],   # two cores
+             lambda: [None, ["L", 4]],                        # a leaf without route
+             lambda: [2, ["L", 5]]]                           # a vertex behind the north link
+    pairs = [(a, b) for a in range(32) for b in range(32)]
+    if quick:
+        pairs = rng.sample(pairs, 96)
+    out = []
+    for a, b in pairs:
+        ka = [kinds[i]() for i in range(5) if a >> i & 1]
+        kb = [kinds[i]() for i in range(5) if b >> i & 1]
+        t1 = ["N", [2, 2], ka]
+        t2 = ["N", [3, 3], [[4, ["N", [2, 2], kb]]]]
+        out.append(dict(kind="trees", routes=[[1, t1], [2, t2]], net_keys=[[2, [5, 0xff]], [1, [5, 0xff]]],
+                        wf="valid", share="enumerated"))
+    return out
+
+
+def route_enum_cases(rng, quick):
+    """Tables whose entries run through every single route, every complement of one, every pair (and, in
+    the thorough tier, every triple) of the 24 routes."""
+    import itertools
+    sets = [[r] for r in range(24)] + [[q for q in range(24) if q != r] for r in range(24)]
+    sets += [list(p) for p in itertools.combinations(range(24), 2)]
+    if not quick:
+        sets += [list(p) for p in itertools.combinations(range(24), 3)]
+    out = []
+    for i in range(0, len(sets), 1000):
+        es = [[rs, rng.getrandbits(32), rng.getrandbits(32), [-1]] for rs in sets[i:i + 1000]]
+        spec = gen_chip(rng, "fresh")
+        out.append(dict(kind="load", chips=[[0, 0, spec]], tables=[[[0, 0], es]], app_id=rng.randrange(256),
+                        mode="entries", context=False, wf="valid"))
+    return out
+
+
 # ====================================================================== Coq literals
 def chipl(xy):
     return "(%s, %s)" % (zlit(xy[0]), zlit(xy[1]))
@@ -533,11 +573,14 @@ def run(chk, args):
         cases += [b["replay"]["case"] for b in rep.get("no_longer_checks", []) if "case" in b.get("replay", {})]
     else:
         quick = chk.tier == "quick"
-        n_trees, n_loads = (800, 300) if quick else (40000, 6000)
+        n_trees, n_loads = (800, 300) if quick else (30000, 4000)
         cases = [gen_trees(chk.rng, malformed=(i % 8 == 7)) for i in range(n_trees)]
+        cases += fork_pair_cases(chk.rng, quick)
         cases += [gen_load(chk.rng, malformed=(i % 10 == 9)) for i in range(n_loads)]
-        for size in ([0, 1, 1022, 1023, 1023, 1024, 1025] if quick else
-                     [0, 1, 2, 1000, 1022] + [1023] * 12 + [1024] * 4 + [1025, 2000]):
+        cases += route_enum_cases(chk.rng, quick)
+        sizes = [0, 1, 1022, 1023, 1023, 1024, 1025] if quick else \
+            list(range(0, 65)) + list(range(65, 1023, 31)) + [1022] + [1023] * 12 + [1024] * 4 + [1025, 2000]
+        for size in sizes:
             cases.append(gen_load(chk.rng, size=size))
     corpus = lib.os.path.join(lib.VERIF, "corpus", "C10.json")
     if lib.os.path.exists(corpus):
@@ -626,9 +669,12 @@ def run(chk, args):
     chk.coverage["rule"] = (
         "(i) random sets of 1-6 routing trees rooted in a 2x2..6x6 area (chains, bushy trees, leaves with core routes, "
         "link routes and no route, repeated routes), nets sharing 1-3 (key, mask) pairs, later trees joining a copy "
-        "of an earlier subtree unchanged or with a different fork; every 8th case malformed; "
+        "of an earlier subtree unchanged or with a different fork; every 8th case malformed; plus pairs of nets meeting on a "
+        "chip with every two subsets of five kinds of child (96 sampled pairs; all 1024 in the thorough tier); "
         "(ii) loads of 0..60 entries (plus tables of 0, 1, 1022, 1023, 1024, 1025 entries) with random subsets of the "
         "24 route bits incl. none and all, boundary and random 32-bit keys/masks, any app id, onto 1-3 simulated chips "
         "whose routers are fresh, fragmented, shuffled or full, through load_routing_table_entries (positional or "
-        "contextual arguments) or load_routing_tables, followed by get_routing_table_entries; every 10th malformed. "
+        "contextual arguments) or load_routing_tables, followed by get_routing_table_entries; every 10th malformed; plus "
+        "tables running through every single route, every complement of one and every pair of the 24 routes (every "
+        "triple and every table length 0..64 in the thorough tier). "
         "non-trivial = well-formed and (trees: >= 2 nets; loads: >= 1 entry); distinct by hash of the whole input")
